@@ -141,7 +141,7 @@ Proof.
     + apply same_regs_refl.
     + apply same_regs_trans.
     + reflexivity.
-    + intros a b a' Hs. destruct (get_waiter s b) as [w|]; [|discriminate].
+    + intros a b a' Hs. unfold reblock_step in Hs. destruct (get_waiter s b) as [w|]; [|discriminate].
       destruct (_ && _).
       * eapply e_block_regs; eassumption.
       * inversion Hs; subst. apply same_regs_refl.
